@@ -117,6 +117,35 @@ static void check_C03(const std::string& text, vr::Ctx& ctx) {
   if (!d.empty()) ctx.violation("value_mismatch", "value_mismatch_simplealloc", text, "%s", d.c_str());
 }
 
+// the value read back after a history of earlier calls on the same document (C03: "a successful Parse yields
+// exactly the value", also when the document has been used before, successfully or not)
+template <class Doc>
+static void c03_after_history(const std::vector<const std::string*>& before, int mode, const std::string& last, const ref::Value& want, const char* tag, vr::Ctx& ctx) {
+  std::string desc;
+  for (auto x : before) desc += *x + " ; ";
+  desc += (mode == 1 ? "[then ParseOnDemand /a] ; " : mode == 2 ? "[then ParseSchema] ; " : "") + last;
+  Doc doc;
+  for (auto x : before) {
+    ExactBuf b(*x);
+    doc.Parse(b.p, b.n);
+  }
+  if (mode == 1) {
+    ExactBuf b(last);
+    doc.ParseOnDemand(b.p, b.n, JsonPointer({JsonPointerNode("a")}));
+  } else if (mode == 2) {
+    ExactBuf b(last);
+    doc.ParseSchema(b.p, b.n);
+  }
+  ExactBuf b(last);
+  doc.Parse(b.p, b.n);
+  if (doc.HasParseError()) {
+    ctx.violation("rejects_valid", std::string("rejects_valid_after_history_") + tag, desc, "valid text rejected with code %d after earlier calls on the same document", (int)doc.GetParseError());
+    return;
+  }
+  std::string d = sc::compare(doc, want);
+  if (!d.empty()) ctx.violation("value_mismatch", std::string("value_mismatch_after_history_") + tag, desc, "%s", d.c_str());
+}
+
 // ---------------------------------------------------------------- C02
 static const char kProbe[] = "[1,\"a\",{\"b\":null,\"c\":[true,2.5]}]";
 
@@ -302,12 +331,18 @@ int main(int argc, char** argv) {
   // history families (C02 only)
   HistSet hs;
   vr::Family fpairs, ftriples;
-  if (prop == "C02") {
+  vr::Family fhv;
+  if (prop == "C02" || prop == "C03") {
     auto b = fam::base_valid(4, false, 2);
     for (auto& x : b) hs.S.push_back(x.join());
     for (const char* s : {"", " ", "[", "{", "{\"a\":", "{\"a\":{\"b\":[1,", "[1,2", "\"abc", "{\"a\":1}", "{\"a\":[1,{\"a\":2}],\"b\":\"s\"}", "{\"b\":1,\"a\":\"x\\ny\"}",
                           "[[[[[[[[[[[[[[[[[[[[[[[[],[],1]", "[[[[[[[[[[[[[[[[[[[[[[[[]]]]]]]]]]]]]]]]]]]]]]]]", "1e400", "[\"\\ud800\"]", "{\"a\":\"" "xxxxxxxxxxxxxxxxxxxxxxxxxxxxxxxxxxxxxxxxxxxxxxxxxxxxxxxxxxxxxxxxxxxxxxxxxxxx" "\"}"})
       hs.S.push_back(s);
+    fhv.name = "H2v_value_after_history";
+    fhv.count = (uint64_t)hs.S.size() * hs.S.size() * 3;
+    fhv.group = "H2v";
+    fhv.chunk = 64;
+    fhv.rule = "all ordered pairs (X,Y) over the " + std::to_string(hs.S.size()) + "-text set (valid, invalid, truncated, deep) with Y valid, in 3 histories on ONE document (Parse X ; Parse Y / Parse X ; ParseOnDemand(Y,/a) ; Parse Y / Parse X ; ParseSchema(Y) ; Parse Y), pool and freeing allocator: the document read back through the accessors must be exactly Y's value";
     fpairs.name = "H2_reuse_pairs";
     fpairs.count = (uint64_t)hs.S.size() * hs.S.size() * 2;
     fpairs.group = "H2";
@@ -328,6 +363,23 @@ int main(int argc, char** argv) {
   for (auto& f : tf) byname[f.meta.name] = &f;
 
   vr::CheckFn check = [&](const vr::Family& f, uint64_t idx, vr::Ctx& ctx) {
+    if (f.name == "H2v_value_after_history") {
+      int mode = (int)(idx % 3);
+      uint64_t r = idx / 3;
+      const std::string& X = hs.S[r / hs.S.size()];
+      const std::string& Y = hs.S[r % hs.S.size()];
+      ref::Result ry = ref::parse(Y);
+      if (!ry.ok) {
+        ctx.skip();
+        return;
+      }
+      ctx.eval();
+      ctx.nontriv();
+      if (ctx.want_sample) ctx.sample("mode " + std::to_string(mode) + ": " + X + " ; " + Y);
+      c03_after_history<PoolDoc>({&X}, mode, Y, ry.v, "pool", ctx);
+      c03_after_history<SimpleDoc>({&X}, mode, Y, ry.v, "simple", ctx);
+      return;
+    }
     if (f.name == "H2_reuse_pairs" || f.name == "H3_reuse_triples") {
       std::vector<unsigned> seq;
       unsigned mode = 0;
@@ -378,6 +430,7 @@ int main(int argc, char** argv) {
     fams.push_back(fpairs);
     if (!quick) fams.push_back(ftriples);
   }
+  if (prop == "C03") fams.push_back(fhv);
   if (args.replay) return R.replay_one(fams, check);
   const std::string only = args.get("only");
   for (auto& f : fams)
